@@ -164,12 +164,13 @@ def forward_checks(rep, fnd, pid, tier):
     wide = [("ScatLayer", 17, 2), ("ScatLayer", 40, 1), ("ScatLayer", 2, 5), ("ScatLayerj2", 17, 1), ("ScatLayerj2", 3, 3)]
     if tier != "quick":
         wide += [("ScatLayer", 147, 1), ("ScatLayerj2", 33, 2)]
-    for k, (name, C, N) in enumerate(wide):
+    wide = [w + (8, 8) for w in wide] + [("ScatLayer", 3, 2, 132, 158), ("ScatLayerj2", 2, 1, 136, 72)]     # ... and large images
+    for k, (name, C, N, H_, W_) in enumerate(wide):
         biort, qshift = FAMILIES[k % len(FAMILIES)]
         b = biases[(k + 1) % 4]
         lay = pw.ScatLayer(biort=biort, magbias=b) if name == "ScatLayer" else pw.ScatLayerj2(biort=biort, qshift=qshift, magbias=b)
-        x = rng.standard_normal((N, C, 8, 8))
-        cfg = dict(layer=name, biort=biort, qshift=qshift, H=8, W=8, C=C, N=N, magbias=b, input="gaussian-wide")
+        x = rng.standard_normal((N, C, H_, W_))
+        cfg = dict(layer=name, biort=biort, qshift=qshift, H=H_, W=W_, C=C, N=N, magbias=b, input="gaussian-wide")
         case = {"api": name, "check": "scat_forward", "cfg": cfg}
         rep.validated()
         rep.nontriv(("scat_wide", name, C, N))
